@@ -92,7 +92,7 @@ def apply_edit(tree, path, edit):
 
 
 EDITS = [["append"], ["pop"], ["clear"], ["reverse"], ["replace_token", 0], ["replace_token", 1], ["replace_tree", 0],
-         ["replace_tree", 1], ["rename"], ["insert"], ["token_attr"]]
+         ["replace_tree", 1], ["rename"], ["insert"], ["token_attr"], ["token_attr"], ["token_attr"]]
 
 
 # ---------------------------------------------------------------------------------------------------- operations
@@ -253,8 +253,10 @@ async def do_op(sim, request):
                         )
         elif kind == "F":
             for _ in range(op[1]):
+                # fresh, trivial, well-formed strings over key numbers that are valid everywhere: [a][b]
                 state["flood_counter"] += 1
-                parse_condition_expression_to_tree(f"[{state['flood_counter']}]")
+                first, second = divmod(state["flood_counter"], 60)
+                parse_condition_expression_to_tree(f"[{1 + first % 499}][{901 + second}]")
             state["flooded"] += op[1]
             sim.count_fault("F6_cache_flood")
             sim.probe("flood_strings", op[1])
@@ -423,7 +425,7 @@ def execute(scenario):
                 if key not in references:
                     references[key] = pristine(_reference, scenario, request["rid"], op[1], entry["text"])
     scenario = dict(scenario, _references=references)
-    shared = {"handles": [], "edited": set(), "flooded": 0, "flood_counter": 100000, "violation": None,
+    shared = {"handles": [], "edited": set(), "flooded": 0, "flood_counter": 0, "violation": None,
               "nontrivial": False}
 
     async def run_client(sim, request):
